@@ -1783,11 +1783,11 @@ pub fn run(cfg: &Cfg) -> Report {
     proof_roundtrips(&mut rep0);
 
     let shards = 64;
-    let per_prog = cfg.n(220, 2600);
-    let per_mod = cfg.n(110, 1300);
-    let per_case = cfg.n(40, 500);
-    let per_lib = cfg.n(6, 60);
-    let per_data = cfg.n(150, 1500);
+    let per_prog = cfg.n(660, 6600);
+    let per_mod = cfg.n(330, 3300);
+    let per_case = cfg.n(100, 1000);
+    let per_lib = cfg.n(12, 120);
+    let per_data = cfg.n(300, 3000);
     let reports = par_map(shards, |sh| {
         let mut rng = rng_for(cfg.seed, "C10", sh as u64);
         let mut rep = Report::new();
